@@ -271,12 +271,18 @@ def _c10_extra2():
         try:
             plan = _kspace_plan(cls)
             items = ", ".join(f'"{p}"' for p in plan)
+            from ..gen import REPO as _R, find_function as _ff, parse_file as _pf
+            fn = _ff(_pf(_R / MT), f"{cls}.__call__")
+            n_ret = sum(isinstance(n, ast.Return) for n in ast.walk(fn))
             text += (f"\n/-- translated from `{MT}`:`{cls}.__call__` (calls applied to the k-space, in order) -/\n"
                      f"def {name}Names : List String := [{items}]\n"
-                     f"def {name} : Option (List Crop.KOp) := {name}Names.mapM Crop.KOp.ofString\n")
+                     f"def {name} : Option (List Crop.KOp) := {name}Names.mapM Crop.KOp.ofString\n"
+                     f"/-- number of `return` statements in `{cls}.__call__` (1 = only the final one: no early exit that\n"
+                     f"skips the plan) -/\ndef {name}Returns : Nat := {n_ret}\n")
             status[name] = "translated"
         except Untranslatable as e:
-            text += f"\n/-- SKIPPED ({e}) -/\ndef {name} : Option (List Crop.KOp) := some {fallback}\n"
+            text += (f"\n/-- SKIPPED ({e}) -/\ndef {name} : Option (List Crop.KOp) := some {fallback}\n"
+                     f"def {name}Returns : Nat := 1\n")
             status[name] = f"skipped: {e}"
     return text, status
 
